@@ -57,9 +57,11 @@ theorem C02_finding_fp_to_u64_above_2p63 : ¬ C02_select_Statement := by
   rw [e] at hhold
   exact absurd hhold.2 (by decide)
 
-/-- **C02-literal-double-rounding** (the arithmetic core): round₅₃ ∘ round₆₄ ≠ round₅₃ -/
-theorem C02_finding_literal_double_rounding :
-    roundNat 53 (roundNat 64 18446744073709553665) ≠ roundNat 53 18446744073709553665 := by decide
+/-- **C02-literal-double-rounding** (the arithmetic core): round₅₃ ∘ round₆₄ ≠ round₅₃ at 2^64 + 2^11 + 1
+    (the literal `18446744073709553665.0`; chibicc gives 0x43f0000000000000, C11/gcc 0x43f0000000000001) -/
+theorem C02_finding_literal_double_rounding : ¬ C02_const_Statement := by
+  intro h
+  exact absurd (h 18446744073709553665).1 (by decide)
 
 /-! ### repaired defects (fix: commits recorded in known_findings.json): the current table, checked -/
 
